@@ -219,6 +219,7 @@ struct Driver
     int estate[NE + 1] = {0, 0, 0, 0};  // 0 absent 1 live 2 moved-from
     Elem& E(int x) { return *std::launder(reinterpret_cast<Elem*>(estore[x])); }
     int salt_counter = 0;
+    int pending_fault = 0;  // "Fail k": the k-th allocation of the next operation throws
     Out* out = nullptr;
     long h = 0;
     long step = 0;
@@ -809,6 +810,9 @@ struct Driver
         bool thrown = false;
         std::string why;
         ledger().take_sub();
+        const int fault = pending_fault;
+        pending_fault = 0;
+        if (fault > 0) ledger().fail_countdown = fault;
         try
         {
             if (op.n == "Construct")
@@ -1082,7 +1086,25 @@ struct Driver
         catch (const std::bad_alloc&)
         {
             thrown = true;
+            // operands of a failed assignment are valid but unspecified: from now on only their scalars are projected
+            if (op.n == "CopyAssign" || op.n == "MoveAssign")
+            {
+                if (op.a[0] != v)
+                {
+                    vstate[v] = 2;
+                    if (op.n == "MoveAssign") vstate[op.a[0]] = 2;
+                }
+            }
+            else if (op.n == "ElemCopyAssign" || op.n == "ElemMoveAssign")
+            {
+                if (op.a[0] != v)
+                {
+                    estate[v] = 2;
+                    if (op.n == "ElemMoveAssign") estate[op.a[0]] = 2;
+                }
+            }
         }
+        ledger().fail_countdown = -1;
         if (!why.empty())
         {
             out->line("{\"e\":\"skip\",\"h\":" + std::to_string(h) + ",\"s\":" + std::to_string(step) + ",\"n\":\"" +
@@ -1105,7 +1127,7 @@ struct Driver
         std::ostringstream o;
         o << "{\"e\":\"op\",\"h\":" << h << ",\"s\":" << step << ",\"n\":\"" << op.n << "\",\"v\":" << v << ",\"a\":[";
         for (std::size_t i = 0; i < op.a.size(); ++i) o << (i ? "," : "") << op.a[i];
-        o << "],\"par\":{\"salt\":" << salt << ",\"cap\":" << parcap << ",\"fresh\":" << fresh << "},\"thrown\":" << (thrown ? 1 : 0)
+        o << "],\"par\":{\"salt\":" << salt << ",\"cap\":" << parcap << ",\"fresh\":" << fresh << ",\"fault\":" << fault << ",\"thrown\":" << (thrown ? 1 : 0) << "},\"thrown\":" << (thrown ? 1 : 0)
           << ",\"ret\":" << ret << ",\"canary\":" << (ledger().canary_dead ? 1 : 0) << ",\"sub\":[" << sub
           << "],\"itab\":" << itab << ",\"cmp\":" << cmp << ",\"obs\":" << all_obs() << ",\"eobs\":" << all_el_obs() << "}";
         ledger().take_sub();  // projection must not produce events; drop defensively
@@ -1161,6 +1183,7 @@ struct Driver
         h = hist.h;
         step = 0;
         salt_counter = 0;
+        pending_fault = 0;
         for (int v = 0; v <= NV; ++v) vstate[v] = 0;
         for (int x = 0; x <= NE; ++x) estate[x] = 0;
         const unsigned junk = junkmode >= 0 ? static_cast<unsigned>(junkmode) : (seed + static_cast<unsigned>(h)) % 4;
@@ -1169,6 +1192,11 @@ struct Driver
         out->line("{\"e\":\"begin\",\"h\":" + std::to_string(h) + ",\"junk\":" + std::to_string(junk) + "}");
         for (const auto& op : hist.ops)
         {
+            if (op.n == "Fail")
+            {
+                pending_fault = op.v;
+                continue;
+            }
             ++step;
             prog->step = step;
             prog->v = op.v;
